@@ -8,31 +8,50 @@ from . import common
 from .common import Corr, f2hex, hex2f, flist
 
 ID = "C15"
-LEAN_MODULES = ["TempestVerif.Props.C15"]
-RULE = ("(i) mstep-T / estep-T: generated weighted data (d=1..6, n=2d..200; separated / overlapping / rank-deficient / duplicated / "
-        "far-from-origin point sets; sample weights uniform, log-normal skewed (sigma 3), two-point dominated, with exact zeros, small integers; "
-        "K=1..3 random non-negative responsibilities incl. one-hot rows and an all-zero column) fed to the real GaussianMixture._m_step "
-        "('full' and 'diag') and to the Float model, compared at 1e-9*(1+scale); the real _e_step is compared with the model's normalisation of the "
-        "un-normalised matrix weights[k]*pdf recomputed with the same scipy call. Non-trivial = K>=2 or non-constant sample weights. "
-        "init-T: real _initialize_parameters (k-means++ centres observed through np.searchsorted, log soft assignment -0.5 dist^2 recomputed "
-        "with the same numpy expression) vs the model's max-shifted initNormalise+mstep; far-apart clusters (where exp(-0.5 dist^2) alone would underflow "
-        "to an all-zero row) are included. Non-trivial = K>=2 or such a far row. "
+LEAN_MODULES = ["TempestVerif.Props.C15", "TempestVerif.Props.C15Fit", "TempestVerif.Props.C15Hier",
+                "TempestVerif.Props.C15Replicate", "TempestVerif.Props.C15FitTotal", "TempestVerif.Lemmas.CholList"]
+RULE = ("(i) mstep-T: generated weighted data (d=1..6, n=2d..200; separated / overlapping / rank-deficient / duplicated / far-from-origin point sets, "
+        "15% scaled by 10^U(1,5); sample weights uniform, log-normal skewed (sigma 3), two-point dominated, with exact zeros, small integers; K=1..3 random "
+        "non-negative responsibilities incl. one-hot rows and an all-zero column) fed to the real GaussianMixture._m_step ('full' and 'diag') and to the Float "
+        "model, compared at 1e-9*(1+scale). gmmeval-T: on the parameters the real M-step returned, the real _e_step / _compute_lower_bound / predict / bic vs "
+        "the model's E-step (its own Gaussian log-density through a Cholesky factor, log-space normalisation), lower bound, predict, bic; the covariances "
+        "scipy refuses (asked of scipy itself) are handed to the model's oracle `sing`, so the three `except` branches are exercised; tolerance "
+        "1e-9 + 1e-13*cond*(1+maha), cases above 1e-3 are counted, not compared. Non-trivial = K>=2 or a refused covariance. "
+        "init-T: real _initialize_parameters vs the model's max-shifted initNormalise+mstep (centres observed through np.searchsorted). "
+        "gmmfit-T: WHOLE real GaussianMixture.fit (K=1..3, 'full'/'diag', n_init 1..3, max_iter in {1,2,3,5,20,1000}, tol in {1e-3,1e-6,1e-2,1e-1}, data "
+        "scaled by 10^U(1,5) in 15% and 10^U(-4,-1) in 10% of the cases, weights None or one of the five families) under its recorded rand() tape vs the "
+        "model's fit (k-means++ draw, E, M, lower bound, convergence test, best restart): k-means++ indices, n_iter_, converged_ exact; weights_, means_, "
+        "covariances_, lower_bound_ at 1e-8*(1+scale)+1e-12*cond*(1+maha). Runs whose outcome hangs on a scipy refusal, a denormal responsibility, a "
+        "convergence / best-restart tie or ill-conditioning are tagged `sensitive:*` and a difference there is a near tie, not a disagreement. "
         "(ii) split-X: real HierarchicalGaussianMixture.fit (2-4 blobs incl. an undersized one, duplicates, skewed weights; max_iterations in {0,1,2,1000}, "
-        "min_points in {None, small, large}, threshold_modifier in {0.1,1,10}, normalize on/off, 'full'/'diag') with tempest.cluster.GaussianMixture "
-        "replaced by a recording subclass; the model replays the recorded scores/child labels and must reproduce the examined-cluster sequence, labels_, "
-        "n_clusters_ and the final cluster order exactly. Non-trivial = at least one cluster examined. "
-        "(iii) replicate: real fit on (X, integer c) vs fit on np.repeat(X, c) under the same random_state (k=1; k=2 when both runs drew the same initial "
-        "centres and stopped after the same number of EM iterations), tolerance 1e-6 relative. Non-trivial = some c_i >= 2.")
-MODELLED = ["whole-fit statements are conditional: C15_mstep_weights_simplex / C15_mean_in_bbox need finite non-negative responsibilities with positive total; "
-            "the initial soft assignment delivers them (C15_init_rows_simplex_full), that every later E-step does rests on scipy's pdf",
-            "scipy.stats.multivariate_normal (pdf/logpdf) is not modelled: the E-step model receives the un-normalised matrix weights[k]*pdf(x_i) the real scipy call produced",
-            "EM convergence, BIC values and the child mixture's predict are supplied to the split-loop model as recorded numbers (the model is the control flow on index lists)",
-            "BLAS dot products / numpy reductions differ from the model's left-to-right sums by rounding only (tolerance 1e-9*(1+scale))",
-            "np.argmax/np.argmin: first extremum, NaN-free rows",
-            "k-means++ initialisation (searchsorted on cumulative sums) is not modelled; the replication check compares the real code with itself and skips cases where the two runs drew different centres"]
+        "min_points in {None, small, large}, threshold_modifier in {0.1,1,10}, normalize on/off, 'full'/'diag', n_init 1 or 2) with tempest.cluster.GaussianMixture "
+        "replaced by a recording subclass; the oracle model replays the recorded scores/child labels. hfit-T: the same real run vs the model's WHOLE hfit "
+        "(normalisation, inner mixture fits under RandomState(42)'s tape, BIC, threshold, split loop, final per-cluster fits, denormalisation, cluster weights) "
+        "and its predict / predict_proba on 23 query points (training points, N(0,30), +-1e6, 1e150, 1e200 mixed signs, 1e308, NaN, +-inf) on the mixture path and "
+        "with _gmm_ready switched off (nearest-centre / inverse-distance path): examined clusters, labels_, n_clusters_, predicted labels exact; centres, "
+        "covariances, cluster weights, probabilities at 1e-7; 1/9 of the cases put a blob (or all points) exactly on a line at a spread of 10^2.5..10^4 so that scipy "
+        "refuses covariances (the refused matrices of the real run are the model's oracle, matched to 1e-6 relative). A difference is a near tie, not a disagreement, "
+        "when a split score is within 1e-9 of its threshold / of the best score, when two restarts of an inner fit end within 1e-9 of each other, or when the REAL "
+        "code's own answer at the differing query rows changes under a 1e-13 relative perturbation of the fitted parameters. Non-trivial = at least one cluster examined. "
+        "(iii) replicate-T: real fit on (X, integer c) vs fit on np.repeat(X, c) under the same random_state, tolerance 1e-6 relative. "
+        "(iv) property-R: the statement's invariants checked directly on every real mixture of gmmfit-T and every real hierarchical model of hfit-T "
+        "(no model involved; a fit or predict that raises is a failure).")
+MODELLED = ["scipy.stats.multivariate_normal is represented by the same Gaussian log-density computed through a Cholesky factor (lower triangle read); scipy's "
+            "eigenvalue test that REFUSES a covariance (LinAlgError/ValueError) is an uninterpreted oracle `sing : matrix -> Bool` — every theorem is for "
+            "every oracle; in the one-step suite the oracle is scipy's own answer, in the whole-fit suites it is `never` (runs where scipy did refuse are tagged)",
+            "np.random.RandomState.rand is a tape of numbers in [0,1) (the recorded values of the real run; RandomState(42)'s for the hierarchical model)",
+            "theorems are over exact real arithmetic; IEEE rounding, underflow and overflow are bridged by the Float correspondence only — except "
+            "C15_softRow_rounded (E-step row under any monotone idempotent rounding fixing 0 and 1: normaliser >= 1, entries in [0,1])",
+            "BLAS dot products / pairwise numpy reductions differ from the model's left-to-right sums by rounding only (tolerances above)",
+            "np.argmax / np.argmin as numpy computes them on doubles (first extremum; the first NaN wins); np.searchsorted on a sorted array as the "
+            "number of leading entries below the key; scipy.special.logsumexp as max-shifted log-sum-exp",
+            "the M-step level replication theorem is exact; the whole-fit one (C15_fit_replicate_general) is about the model at R; replicate-T compares the real code with itself"]
 ASSUMPTIONS = ["covariance_type is 'full' or 'diag' ('tied'/'spherical' are outside the statement)",
-               "sample weights are non-negative with a positive sum; min_points >= 2 when given",
-               "the child mixture's predict returns one label in {0,1} per member (C15_predict_range with K=2)"]
+               "sample weights are non-negative with a positive sum; n_components >= 1, n_init >= 1, max_iter >= 1 (the Python fails on an unbound name otherwise); "
+               "min_points >= 2 when given",
+               "query points have the training dimension (any values, NaN and infinities included)",
+               "the explicit cluster cap of the sampler (n_max_clusters -> max_iterations = n_max_clusters - 1) is C14's wiring suite + Props.C14 cap theorem; "
+               "here the cap is max_iterations + 1"]
 
 TINY = float(np.finfo(float).tiny)
 EPS = 1e-10
@@ -158,24 +177,137 @@ def _real_mstep(X, R, s, K, ct):
     return gm, w, m, c
 
 
-def _unnormalised(gm, X, w, m, c):
-    """weights[k] * pdf_k(x_i), recomputed exactly as `_e_step` does (same scipy call, same fallback)"""
+def _reg_cov(gm, c, k):
+    """the matrix `_e_step` / `_compute_lower_bound` / `predict` hand to scipy for component k"""
+    cov = gm._get_covariance(c, k)
+    return cov + np.eye(cov.shape[0]) * gm.reg_covar
+
+
+def _scipy_refuses(M, mean):
     from scipy.stats import multivariate_normal
-    P = np.zeros((X.shape[0], gm.n_components))
-    for k in range(gm.n_components):
-        cov = gm._get_covariance(c, k)
+    try:
+        multivariate_normal.logpdf(np.asarray(mean)[None, :], mean=mean, cov=M)
+        return False
+    except (np.linalg.LinAlgError, ValueError):
+        return True
+
+
+def _amp(gm, X, m, c, K):
+    """error amplification of a log-density: cond(cov + reg I) * (1 + largest squared Mahalanobis distance)"""
+    out = 1.0
+    for k in range(K):
+        M = _reg_cov(gm, c, k)
+        if not np.all(np.isfinite(M)):
+            return float("inf")
         try:
-            P[:, k] = w[k] * multivariate_normal.pdf(X, mean=m[k], cov=cov + np.eye(cov.shape[0]) * gm.reg_covar)
-        except (np.linalg.LinAlgError, ValueError):
-            P[:, k] = w[k] * multivariate_normal.pdf(X, mean=m[k], cov=np.eye(len(m[k])) * gm.reg_covar)
-    return P
+            cond = float(np.linalg.cond(M))
+            dev = X - m[k]
+            q = float(np.max(np.sum(dev * np.linalg.solve(M, dev.T).T, axis=1)))
+        except np.linalg.LinAlgError:
+            return float("inf")
+        if not np.isfinite(cond) or not np.isfinite(q):
+            return float("inf")
+        out = max(out, cond * (1.0 + abs(q)))
+    return out
+
+
+def _err_model(gm, X, s, w, m, c, K):
+    """first-order bounds on what rounding in the log-densities (model: Cholesky, scipy: eigendecomposition) can do to the
+    quantities compared by gmmeval-T, computed with numpy/scipy on the real parameters.
+    delta[i,k] = 50 * 2.2e-16 * cond(M_k) * (d + maha_ik) bounds the error of one log-density, with M_k the matrix actually
+    used: cov + reg I, or reg I where scipy refuses (E-step); a refused component is skipped (lower bound) / is -inf (predict).
+    returns dict(tolR, tolLB, tolBIC, gap_tol[i]) (inf where no bound is available)"""
+    from scipy.stats import multivariate_normal
+    n, d = X.shape
+    INF = float("inf")
+    lpE = np.full((n, K), -np.inf)
+    lpL = np.full((n, K), -np.inf)
+    dE = np.zeros((n, K))
+    dL = np.zeros((n, K))
+    with warnings.catch_warnings(), np.errstate(all="ignore"):
+        warnings.simplefilter("ignore")
+        for k in range(K):
+            M = _reg_cov(gm, c, k)
+            refused = _scipy_refuses(M, m[k])
+            Meff = np.eye(d) * gm.reg_covar if refused else M
+            try:
+                cond = float(np.linalg.cond(Meff))
+                dev = X - m[k]
+                q = np.sum(dev * np.linalg.solve(Meff, dev.T).T, axis=1)
+                lp = multivariate_normal.logpdf(X, mean=m[k], cov=Meff)
+            except Exception:  # noqa
+                return dict(tolR=INF, tolLB=INF, tolBIC=INF, gap=np.full(n, INF))
+            delta = 50 * 2.2e-16 * cond * (d + np.abs(q))
+            lpE[:, k] = np.log(w[k]) + lp if w[k] > 0 else -np.inf
+            dE[:, k] = delta
+            if not refused:
+                lpL[:, k] = lp
+                dL[:, k] = delta
+        if not (np.all(np.isfinite(dE)) and np.all(np.isfinite(dL))):
+            return dict(tolR=INF, tolLB=INF, tolBIC=INF, gap=np.full(n, INF))
+        mx = np.max(lpE, axis=1, keepdims=True)
+        mx[~np.isfinite(mx)] = 0.0
+        R = np.exp(lpE - mx)
+        R = R / np.maximum(R.sum(axis=1, keepdims=True), 1e-300)
+        mix = np.sum(R * dE, axis=1, keepdims=True)
+        tolR = 1e-9 + float(np.max(R * (dE + mix)))
+        P = np.where(np.isfinite(lpL), np.asarray(w)[None, :] * np.exp(lpL), 0.0)
+        tot = P.sum(axis=1, keepdims=True) + 1e-10
+        per_point = np.sum(P / tot * dL, axis=1)
+        tolLB = float(np.max(per_point))
+        gap = 1e-9 + 2.0 * np.max(dL, axis=1)
+    return dict(tolR=tolR, tolLB=tolLB, tolBIC=2.0 * n * tolLB, gap=gap)
+
+
+def _stack(ms, enc=f2hex):
+    ms = list(ms)
+    return "|".join(_mat(m, enc) for m in ms) if ms else "-"
+
+
+def eval_line(gm, X, s, w, m, c, K, ct):
+    """one-step model evaluation (E-step, lower bound, predict, bic) on given parameters; the matrices scipy refuses
+    are found by asking scipy and handed to the model's oracle `sing`"""
+    n, d = X.shape
+    refused = []
+    for k in range(K):
+        M = _reg_cov(gm, c, k)
+        if _scipy_refuses(M, m[k]):
+            refused.append(M)
+    E = np.eye(d) * gm.reg_covar
+    if _scipy_refuses(E, m[0]):
+        refused.append(E)
+    if ct == "full":
+        pcf, pcd = _stack(c), "-"
+    else:
+        pcf, pcd = "-", _mat(c)
+    line = (f"gmm.eval.F d={d} k={K} diag={1 if ct == 'diag' else 0} x={_mat(X)} s={flist(s, f2hex)} pw={flist(w, f2hex)} pm={_mat(m)} "
+            f"pcf={pcf} pcd={pcd} eps={f2hex(EPS)} reg={f2hex(gm.reg_covar)} sing={_stack(refused)}")
+    return line, len(refused)
+
+
+def _real_eval(gm, X, s, w, m, c):
+    """what the real `_e_step`, `_compute_lower_bound`, `predict`, `bic` answer on these parameters"""
+    out = {}
+    with warnings.catch_warnings(), np.errstate(all="ignore"):
+        warnings.simplefilter("ignore")
+        try:
+            out["R"] = gm._e_step(X, w, m, c)
+        except Exception as ex:  # noqa
+            out["R"] = None
+            out["R_exc"] = type(ex).__name__
+        out["lb"] = float(gm._compute_lower_bound(X, w, m, c, s))
+        gm.weights_, gm.means_, gm.covariances_ = w, m, c
+        out["labels"] = [int(t) for t in gm.predict(X.tolist())]      # nested lists: the `np.array(X)` conversion branch
+        out["bic"] = float(gm.bic(X))
+    return out
 
 
 def _corr_algebra(tier, drv):
-    n_cases = 300 if tier == "quick" else 12000
+    n_cases = 300 if tier == "quick" else 6000
     rng = common.rng_for("C15.mstep")
     cm = Corr("mstep-T", "toleranced Float (model at Float vs real _m_step, 1e-9*(1+scale))")
-    ce = Corr("estep-T", "toleranced Float (model normalisation vs real _e_step, 1e-9)")
+    ce = Corr("gmmeval-T", "toleranced Float (model E-step / lower bound / predict / bic with its own Gaussian density vs the real "
+                           "_e_step, _compute_lower_bound, predict, bic on the same parameters; tolerance 1e-9 + 1e-13*cond*(1+maha))")
     lines, cases = [], []
     for i in range(n_cases):
         rs = _np_rng(rng)
@@ -185,10 +317,32 @@ def _corr_algebra(tier, drv):
         pf = POINT_FAMILIES[i % len(POINT_FAMILIES)]
         wf = WEIGHT_FAMILIES[(i // len(POINT_FAMILIES)) % len(WEIGHT_FAMILIES)]
         X = gen_points(rs, d, n, pf)
+        big = rs.rand() < 0.15
+        if big:                       # large scales: scipy refuses ill-conditioned covariances (the `except` branches)
+            X = X * 10.0 ** rs.uniform(1, 5)
         s = gen_weights(rs, n, wf)
         if rs.rand() < 0.5:
             s = s / s.sum()          # what `fit` hands to `_m_step`
         rk, R = gen_resp(rs, n, K)
+        if i % 10 == 7 and d >= 2 and n >= 6:
+            # a component scipy REFUSES next to well-conditioned ones: one blob on a line (rank-one scatter, spread 1e2.5..1e4,
+            # so lambda_min/lambda_max < 2.2e-10 after the 1e-6 regularisation), hard assignment by blob
+            K = int(rs.randint(2, 4))
+            nb = n // K
+            parts, rows = [], []
+            for k in range(K):
+                m_k = n - nb * (K - 1) if k == 0 else nb
+                if k == K - 1:
+                    blob = rs.normal(0, 5e4, (1, d)) + rs.normal(0, 1, (m_k, 1)) * rs.normal(0, 1, (1, d)) * 10.0 ** rs.uniform(2.5, 4)
+                else:
+                    blob = rs.normal(0, 20, (1, d)) + rs.normal(0, 1, (m_k, d)) * rs.uniform(0.5, 3)
+                parts.append(blob)
+                rows += [k] * m_k
+            X = np.ascontiguousarray(np.vstack(parts))
+            R = np.zeros((n, K))
+            R[np.arange(n), rows] = 1.0
+            s = rs.uniform(0.5, 1.5, n)
+            rk, big = "blocks_with_degenerate", True
         if float((R * s[:, None]).sum()) <= 0.0:
             R[:, 0] = 1.0
         real = {}
@@ -197,23 +351,18 @@ def _corr_algebra(tier, drv):
         lines.append(f"mstep.F d={d} k={K} x={_mat(X)} r={_mat(R)} s={flist(s, f2hex)} tiny={f2hex(TINY)} eps={f2hex(EPS)}")
         nontriv = K >= 2 or bool(np.ptp(s) > 0)
         cases.append(("m", dict(d=d, n=n, K=K, pf=pf, wf=wf, rk=rk, X=X, R=R, s=s, real=real, nontriv=nontriv)))
-        # e-step on the parameters the real M-step produced
-        ct = "full" if i % 2 == 0 else "diag"
+        # E-step, lower bound, predict, bic on the parameters the real M-step produced
+        ct = "full" if (i % 2 == 0 or rk == "blocks_with_degenerate") else "diag"
         gm, w, m, c = real[ct]
-        with warnings.catch_warnings():
-            warnings.simplefilter("ignore")
-            try:
-                P = _unnormalised(gm, X, w, m, c)
-                resp = gm._e_step(X, w, m, c)
-            except Exception:  # scipy refused the parameters: nothing to compare
-                ce.count("scipy_raised")
-                continue
-        if not np.all(np.isfinite(P)):
-            ce.count("nonfinite_density")
+        if not (np.all(np.isfinite(w)) and np.all(np.isfinite(m)) and np.all(np.isfinite(c))):
+            ce.count("nonfinite_parameters_skipped")
             continue
-        lines.append(f"estep.F p={_mat(P)} eps={f2hex(EPS)}")
-        cases.append(("e", dict(d=d, n=n, K=K, ct=ct, pf=pf, wf=wf, X=X, P=P, resp=resp, w=w, m=m, c=c,
-                                nontriv=K >= 2 or bool(np.ptp(P) > 0))))
+        sn = s / s.sum()
+        line, nref = eval_line(gm, X, sn, w, m, c, K, ct)
+        rv = _real_eval(gm, X, sn, w, m, c)
+        lines.append(line)
+        cases.append(("e", dict(d=d, n=n, K=K, ct=ct, pf=pf, wf=wf, X=X, s=sn, w=w, m=m, c=c, rv=rv, nref=nref, big=big,
+                                em=_err_model(gm, X, sn, w, m, c, K), nontriv=K >= 2 or nref > 0)))
     res = drv.batch(lines)
     for (kind, cs), line, ans in zip(cases, lines, res):
         if kind == "m":
@@ -249,22 +398,87 @@ def _corr_algebra(tier, drv):
                             X=X, R=R, s=s, K=K)
             cm.sample({"op": line[:200] + "...", "impl_weights": cs["real"]["full"][1].tolist(), "model_weights": mw})
         else:
-            P, resp, K = cs["P"], cs["resp"], cs["K"]
-            ce.case((cs["pf"], cs["wf"], cs["ct"], cs["d"], cs["n"], K, _sha(P)), cs["nontriv"])
+            K, rv, em = cs["K"], cs["rv"], cs["em"]
+            ce.case((cs["pf"], cs["wf"], cs["ct"], cs["d"], cs["n"], K, _sha(cs["X"], cs["w"], cs["m"])), cs["nontriv"])
             ce.count("cov:" + cs["ct"])
             ce.count(f"K={K}")
-            mr = _p_mat(ans)
-            if not _close(resp, mr, 1e-9):
-                ce.disagree(what="normalised responsibilities differ", impl=str(resp[:3].tolist())[:300], model=str(mr[:3])[:300],
-                            suite_kind="estep", X=cs["X"], w=cs["w"], m=cs["m"], c=cs["c"], K=K, ct=cs["ct"])
+            if cs["big"]:
+                ce.count("large_scale_data")
+            if cs["nref"]:
+                ce.count("cases_with_a_covariance_scipy_refuses")
+            hint = dict(suite_kind="gmmeval", X=cs["X"], s=cs["s"], K=K, ct=cs["ct"])
+            toks = ans.split(" ")
+            if len(toks) != 4:
+                ce.disagree(what="model answer malformed", model=ans[:200], input=line[:200], **hint)
+                continue
+            probs = []
+            # ---- E-step
+            if rv["R"] is None or toks[0] == "raise":
+                if (rv["R"] is None) != (toks[0] == "raise"):
+                    probs.append(f"_e_step: real {'raised ' + rv.get('R_exc', '') if rv['R'] is None else 'returned'}, model {toks[0][:20]}")
+                else:
+                    ce.count("estep_raises_on_both_sides")
+            elif not (em["tolR"] <= 1e-3):
+                ce.count("estep_ill_conditioned_not_compared")
             else:
-                exact = sum(1 for a, b in zip(np.asarray(resp).ravel(), np.asarray(mr).ravel()) if f2hex(a) == f2hex(b))
-                ce.count("entries_bit_equal", exact)
-                ce.count("entries", int(np.asarray(resp).size))
-            if float(P.sum(axis=1).min()) < 1e-9:
-                ce.count("row_with_density_below_eps")
-            ce.sample({"op": line[:200] + "...", "impl_row0": np.asarray(resp)[0].tolist(), "model_row0": mr[0] if mr else None})
+                ce.count("estep_compared")
+                if cs["nref"]:
+                    ce.count("estep_compared_with_a_refused_covariance")
+                mr = _p_mat(toks[0])
+                if not _close(rv["R"], mr, em["tolR"]):
+                    probs.append(f"responsibilities differ: real {str(np.asarray(rv['R'])[:2].tolist())[:120]} model {str(mr[:2])[:120]}")
+                else:
+                    rs_ = np.asarray(rv["R"]).sum(axis=1)
+                    if np.all(np.isfinite(rs_)) and float(np.max(np.abs(rs_ - 1.0))) > 1e-12:
+                        probs.append(f"a row of the real responsibilities sums to {float(rs_[np.argmax(np.abs(rs_ - 1))])!r}")
+            # ---- lower bound, bic
+            mlb, mbic = hex2f(toks[1]), hex2f(toks[3])
+            if not (em["tolLB"] <= 1e-3):
+                ce.count("lower_bound_ill_conditioned_not_compared")
+            else:
+                ce.count("lower_bound_compared")
+                if not _close([rv["lb"]], [mlb], 1e-9 * (1 + abs(rv["lb"])) + em["tolLB"]):
+                    probs.append(f"lower bound: real {rv['lb']!r} model {mlb!r}")
+                if not _close([rv["bic"]], [mbic], 1e-9 * (1 + abs(rv["bic"])) + em["tolBIC"]):
+                    probs.append(f"bic: real {rv['bic']!r} model {mbic!r}")
+            # ---- predict
+            mlab = [] if toks[2] == "-" else [int(t) for t in toks[2].split(",")]
+            if mlab != rv["labels"]:
+                if _label_margin_small(cs, em["gap"], mlab):
+                    ce.near_ties += 1
+                else:
+                    rows = [q for q in range(len(mlab)) if q < len(rv["labels"]) and mlab[q] != rv["labels"][q]]
+                    probs.append(f"predict: rows {rows[:6]} real {[rv['labels'][q] for q in rows[:6]]} model {[mlab[q] for q in rows[:6]]}")
+            if probs:
+                ce.disagree(what="; ".join(probs)[:500], **hint)
+            ce.sample({"op": line[:160] + "...", "real_lb": rv["lb"], "model_lb": mlb, "real_bic": rv["bic"], "model_bic": mbic})
     return [cm, ce]
+
+
+def _label_margin_small(cs, gap_tol, mlab):
+    """every row where model and real `predict` differ has a top-two gap of `log(w_k + 1e-10) + logpdf_k` below the bound on
+    the rounding error of that row (computed with scipy on the real parameters)"""
+    from scipy.stats import multivariate_normal
+    from tempest.cluster import GaussianMixture
+    X, w, m, c, K, ct = cs["X"], cs["w"], cs["m"], cs["c"], cs["K"], cs["ct"]
+    real = cs["rv"]["labels"]
+    if K < 2 or len(mlab) != len(real):
+        return False
+    gm = GaussianMixture(n_components=K, covariance_type=ct)
+    L = np.full((len(X), K), -np.inf)
+    with warnings.catch_warnings(), np.errstate(all="ignore"):
+        warnings.simplefilter("ignore")
+        for k in range(K):
+            try:
+                L[:, k] = np.log(w[k] + 1e-10) + multivariate_normal.logpdf(X, mean=m[k], cov=_reg_cov(gm, c, k))
+            except (np.linalg.LinAlgError, ValueError):
+                pass
+    for q in range(len(real)):
+        if mlab[q] != real[q]:
+            a, b = L[q, mlab[q]], L[q, real[q]]
+            if not (np.isfinite(a) and np.isfinite(b) and abs(a - b) <= gap_tol[q] * (1 + abs(a))):
+                return False
+    return True
 
 
 def real_init(X, sw, K, ct, seed):
@@ -287,7 +501,7 @@ def real_init(X, sw, K, ct, seed):
 
 
 def _corr_init(tier, drv):
-    n_cases = 150 if tier == "quick" else 6000
+    n_cases = 150 if tier == "quick" else 3000
     rng = common.rng_for("C15.init")
     c = Corr("init-T", "toleranced Float (model max-shifted initNormalise+mstep vs real _initialize_parameters)")
     lines, cases = [], []
@@ -351,6 +565,326 @@ def _corr_init(tier, drv):
     return [c]
 
 
+# ------------------------------------------------------------------------------------------ (i-b) whole GaussianMixture.fit
+class _RngSpy:
+    """records what `rand()` returned (the k-means++ tape of the real run)"""
+
+    def __init__(self, rng, tape):
+        self._rng, self._tape = rng, tape
+
+    def rand(self, *a):
+        v = self._rng.rand(*a)
+        self._tape.append(float(v))
+        return v
+
+    def __getattr__(self, name):
+        return getattr(self._rng, name)
+
+
+class _RefusalSpy:
+    """stands in for scipy.stats.multivariate_normal: delegates, and records the covariance of every call that raises"""
+
+    def __init__(self, real, refused):
+        self._real, self._refused = real, refused
+
+    def _call(self, f, a, k):
+        try:
+            return f(*a, **k)
+        except (np.linalg.LinAlgError, ValueError):
+            if "cov" in k:
+                self._refused.append(np.array(k["cov"], dtype=float))
+            raise
+
+    def pdf(self, *a, **k):
+        return self._call(self._real.pdf, a, k)
+
+    def logpdf(self, *a, **k):
+        return self._call(self._real.logpdf, a, k)
+
+
+def scipy_refusals(refused):
+    """context manager: while active, every covariance scipy refuses is appended to `refused`"""
+    import scipy.stats as st
+    return common.patched(st, "multivariate_normal", _RefusalSpy(st.multivariate_normal, refused))
+
+
+def real_fit_recorded(X, w, K, ct, seed, n_init=1, max_iter=1000, tol=1e-3):
+    """real GaussianMixture.fit, observed: rand() tape, k-means++ indices, matrices scipy refused, per-iteration lower
+    bounds, smallest positive responsibility, worst error amplification cond*(1+maha) over the run"""
+    from tempest.cluster import GaussianMixture
+    import scipy.stats as st
+    rec = dict(tape=[], picks=[], refused=[], lbs=[], min_pos_resp=1.0, amp=1.0, calls=0)
+    real_mvn = st.multivariate_normal
+    real_ss = np.searchsorted
+
+    def spy_ss(a, v, *args, **kwargs):
+        r = real_ss(a, v, *args, **kwargs)
+        rec["picks"][-1].append(int(r))
+        return r
+
+    class MV:
+        @staticmethod
+        def _call(f, a, k):
+            rec["calls"] += 1
+            try:
+                return f(*a, **k)
+            except (np.linalg.LinAlgError, ValueError):
+                rec["refused"].append(np.array(k["cov"], dtype=float))
+                raise
+
+        def pdf(self, *a, **k):
+            return self._call(real_mvn.pdf, a, k)
+
+        def logpdf(self, *a, **k):
+            return self._call(real_mvn.logpdf, a, k)
+
+    class G(GaussianMixture):
+        def _initialize_parameters(self, Xi, swi):
+            old = self._rng
+            self._rng = _RngSpy(old, rec["tape"])
+            rec["picks"].append([])
+            rec["lbs"].append([])
+            try:
+                with common.patched(np, "searchsorted", spy_ss):
+                    return GaussianMixture._initialize_parameters(self, Xi, swi)
+            finally:
+                self._rng = old
+
+        def _e_step(self, Xi, weights, means, covariances):
+            R = GaussianMixture._e_step(self, Xi, weights, means, covariances)
+            pos = R[R > 0]
+            if pos.size:
+                rec["min_pos_resp"] = min(rec["min_pos_resp"], float(pos.min()))
+            if np.all(np.isfinite(means)) and np.all(np.isfinite(covariances)):
+                rec["amp"] = max(rec["amp"], _amp(self, Xi, means, covariances, self.n_components))
+            else:
+                rec["amp"] = float("inf")
+            return R
+
+        def _compute_lower_bound(self, *a):
+            v = GaussianMixture._compute_lower_bound(self, *a)
+            rec["lbs"][-1].append(float(v))
+            return v
+
+    gm = G(n_components=K, covariance_type=ct, random_state=seed, n_init=n_init, max_iter=max_iter, tol=tol)
+    with common.patched(st, "multivariate_normal", MV()), warnings.catch_warnings(), np.errstate(all="ignore"):
+        warnings.simplefilter("ignore")
+        gm.fit(X.tolist() if (seed % 4 == 0) else X, w)      # every fourth case as nested lists (`np.array(X)` branch)
+    return gm, rec
+
+
+def fit_line(X, w, K, ct, tape, n_init, max_iter, tol, refused=(), reg=1e-6):
+    n, d = X.shape
+    return (f"gmm.fit.F d={d} k={K} diag={1 if ct == 'diag' else 0} x={_mat(X)} w={flist(w, f2hex)} tape={flist(tape, f2hex)} "
+            f"tiny={f2hex(TINY)} eps={f2hex(EPS)} reg={f2hex(reg)} tol={f2hex(tol)} maxit={max_iter} ninit={n_init} "
+            f"sing={_stack(refused)}")
+
+
+def parse_fit(ans):
+    t = ans.split(" ")
+    if t[0] != "ok" or len(t) != 9:
+        return None
+    picks = [] if t[8] == "-" else [([] if r == "-" else [int(x) for x in r.split(".")]) for r in t[8].split(";")]
+    return dict(w=_p_list(t[1]), m=_p_mat(t[2]), cf=_p_stack(t[3]), cd=_p_mat(t[4]), nit=int(t[5]), conv=t[6] == "1",
+                lb=hex2f(t[7]), picks=picks)
+
+
+def check_gmm_invariants(gm, X, k, ct):
+    """the property's own oracle on a fitted real mixture (exact up to rounding: thresholds cannot fire on correct code)"""
+    pi = np.asarray(gm.weights_, dtype=float)
+    if pi.shape != (k,) or not np.all(np.isfinite(pi)):
+        return f"weights_ not finite / wrong shape: {pi.tolist()}"
+    if np.any(pi < 0):
+        return f"negative component weight: {pi.tolist()}"
+    if abs(float(np.sum(pi)) - 1.0) > 1e-12:
+        return f"component weights sum to {float(np.sum(pi))!r} (|sum-1| = {abs(float(np.sum(pi)) - 1.0):.3e} > 1e-12)"
+    if np.asarray(gm.means_).shape != (k, X.shape[1]):
+        return f"means_ has shape {np.asarray(gm.means_).shape}"
+    if not (1 <= int(gm.n_iter_) <= int(gm.max_iter)) or bool(gm.converged_) != (int(gm.n_iter_) < int(gm.max_iter)):
+        return f"n_iter_ = {gm.n_iter_}, converged_ = {gm.converged_}, max_iter = {gm.max_iter}"
+    lo, hi = X.min(axis=0), X.max(axis=0)
+    for j in range(k):
+        C = np.asarray(gm.covariances_[j], dtype=float)
+        if not np.all(np.isfinite(C)):
+            return f"covariance of component {j} not finite"
+        scale = max(float(np.max(np.abs(C))), 1e-300)
+        if ct == "full":
+            if C.shape != (X.shape[1], X.shape[1]):
+                return f"covariance of component {j} has shape {C.shape}"
+            if float(np.max(np.abs(C - C.T))) > 1e-12 * scale:
+                return f"covariance of component {j} not symmetric: max |C - C^T| = {float(np.max(np.abs(C - C.T))):.3e}"
+            ev = float(np.min(np.linalg.eigvalsh((C + C.T) / 2)))
+            if ev < -1e-12 * scale:
+                return f"covariance of component {j} has eigenvalue {ev!r} < 0 (scale {scale:.3e})"
+        else:
+            if np.any(C < 0):
+                return f"diagonal covariance of component {j} has a negative entry {float(C.min())!r}"
+        if pi[j] >= 1e-3:
+            m = np.asarray(gm.means_[j], dtype=float)
+            slack = 1e-9 * (1.0 + np.maximum(np.abs(lo), np.abs(hi)))
+            if np.any(m < lo - slack) or np.any(m > hi + slack):
+                return (f"mean of component {j} (weight {pi[j]:.4f}) outside the bounding box: mean={m.tolist()} "
+                        f"lo={lo.tolist()} hi={hi.tolist()}")
+    return None
+
+
+def api_guards():
+    """the argument checks of the two classes: each call must raise ValueError (returns the list of those that did not)"""
+    from tempest.cluster import GaussianMixture, HierarchicalGaussianMixture
+    X = np.arange(12.0).reshape(6, 2)
+    calls = [
+        ("GaussianMixture.fit with a sample_weight of the wrong length", lambda: GaussianMixture().fit(X, np.ones(5))),
+        ("HierarchicalGaussianMixture(threshold_modifier=0)", lambda: HierarchicalGaussianMixture(threshold_modifier=0)),
+        ("HierarchicalGaussianMixture(threshold_modifier=-1)", lambda: HierarchicalGaussianMixture(threshold_modifier=-1.0)),
+        ("HierarchicalGaussianMixture.fit with a sample_weight of the wrong length", lambda: HierarchicalGaussianMixture().fit(X, np.ones(7))),
+        ("predict_proba before fit", lambda: HierarchicalGaussianMixture().predict_proba(X)),
+        ("_normalize_data before fit", lambda: HierarchicalGaussianMixture(normalize=True)._normalize_data(X)),
+        ("_denormalize_data before fit", lambda: HierarchicalGaussianMixture(normalize=True)._denormalize_data(X)),
+        ("_denormalize_covariance before fit", lambda: HierarchicalGaussianMixture(normalize=True)._denormalize_covariance(np.eye(2))),
+    ]
+    bad = []
+    for name, f in calls:
+        try:
+            with warnings.catch_warnings():
+                warnings.simplefilter("ignore")
+                f()
+            bad.append(f"{name}: returned instead of raising ValueError")
+        except ValueError:
+            pass
+        except Exception as ex:  # noqa
+            bad.append(f"{name}: raised {type(ex).__name__} instead of ValueError")
+    return len(calls), bad
+
+
+def gen_fit_case(rs, i):
+    d = int(rs.randint(1, 7))
+    n = int(rs.randint(2 * d, 200)) if rs.rand() < 0.15 else int(rs.randint(2 * d, 61))
+    K = int(rs.randint(1, 4))
+    pf = POINT_FAMILIES[i % len(POINT_FAMILIES)]
+    wf = WEIGHT_FAMILIES[(i // len(POINT_FAMILIES)) % len(WEIGHT_FAMILIES)]
+    X = gen_points(rs, d, n, pf)
+    scale = "unit"
+    u = rs.rand()
+    if u < 0.15:                       # the family on which the old `+ 1e-10` E-step collapsed (F30)
+        X = X * 10.0 ** rs.uniform(1, 5)
+        scale = "large"
+    elif u < 0.25:
+        X = X * 10.0 ** rs.uniform(-4, -1)
+        scale = "small"
+    w = None if (wf == "ones" and rs.rand() < 0.5) else gen_weights(rs, n, wf)
+    ct = "full" if i % 2 == 0 else "diag"
+    n_init = 1 if rs.rand() < 0.6 else int(rs.randint(2, 4))
+    max_iter = 1000 if rs.rand() < 0.6 else [1, 2, 3, 5, 20][int(rs.randint(0, 5))]
+    tol = 1e-3 if rs.rand() < 0.6 else [1e-6, 1e-1, 1e-2][int(rs.randint(0, 3))]
+    return dict(X=X, w=w, K=K, ct=ct, seed=int(rs.randint(0, 10 ** 6)), n_init=n_init, max_iter=max_iter, tol=tol,
+                pf=pf, wf=wf, scale=scale)
+
+
+def _corr_fit(tier, drv):
+    n_cases = 300 if tier == "quick" else 6000
+    rng = common.rng_for("C15.fit")
+    c = Corr("gmmfit-T", "toleranced Float, decisions exact (whole real GaussianMixture.fit under its recorded rand() tape vs the model's fit: "
+                         "k-means++ indices, n_iter_, converged_ exact; weights_/means_/covariances_/lower_bound_ at 1e-8*(1+scale) + 1e-12*cond*(1+maha))")
+    cp = Corr("property-R", "exact oracle on the REAL code, no model (every fitted mixture of gmmfit-T and every hierarchical fit of hfit-T is "
+                            "checked against the statement's invariants)")
+    n_guard, bad_guard = api_guards()
+    cp.case(("api-guards", n_guard), True)
+    cp.count("api_guard_calls", n_guard)
+    for b in bad_guard:
+        cp.disagree(what=b, suite_kind="api")
+    lines, cases = [], []
+    for i in range(n_cases):
+        rs = _np_rng(rng)
+        g = gen_fit_case(rs, i)
+        X, w = g["X"], g["w"]
+        try:
+            gm, rec = real_fit_recorded(X, w, g["K"], g["ct"], g["seed"], g["n_init"], g["max_iter"], g["tol"])
+        except Exception as ex:  # noqa  -- a fit that raises is a failure of the property on this input
+            cp.case(("raise", g["pf"], g["wf"], _sha(X)), True)
+            cp.disagree(what=f"GaussianMixture.fit raised {type(ex).__name__}: {str(ex)[:120]}", suite_kind="gmm", X=X, w=w, K=g["K"],
+                        ct=g["ct"], seed=g["seed"], n_init=g["n_init"], max_iter=g["max_iter"], tol=g["tol"])
+            continue
+        # --- property oracle on the real result
+        cp.case(("gmm", g["pf"], g["wf"], g["scale"], g["K"], g["ct"], _sha(X)), True)
+        cp.count("gmm:" + g["scale"])
+        msg = check_gmm_invariants(gm, X, g["K"], g["ct"])
+        if msg:
+            cp.disagree(what=msg, suite_kind="gmm", X=X, w=w, K=g["K"], ct=g["ct"], seed=g["seed"], n_init=g["n_init"],
+                        max_iter=g["max_iter"], tol=g["tol"])
+        ww = np.ones(len(X)) if w is None else w
+        lines.append(fit_line(X, ww, g["K"], g["ct"], rec["tape"], g["n_init"], g["max_iter"], g["tol"], rec["refused"][:6]))
+        cases.append(dict(g, gm=gm, rec=rec))
+    res = drv.batch(lines)
+    for cs, line, ans in zip(cases, lines, res):
+        gm, rec, X, K, ct = cs["gm"], cs["rec"], cs["X"], cs["K"], cs["ct"]
+        c.case((cs["pf"], cs["wf"], cs["scale"], K, ct, cs["n_init"], cs["max_iter"], cs["tol"], cs["seed"], _sha(X)),
+               K >= 2 or cs["w"] is not None)
+        c.count("points:" + cs["pf"])
+        c.count("scale:" + cs["scale"])
+        c.count(f"K={K}")
+        c.count(f"n_init={cs['n_init']}")
+        c.count("max_iter=" + ("1000" if cs["max_iter"] == 1000 else "small"))
+        c.count("stopped:" + ("converged" if gm.converged_ else "max_iter"))
+        hint = dict(suite_kind="gmm", X=X, w=cs["w"], K=K, ct=ct, seed=cs["seed"], n_init=cs["n_init"], max_iter=cs["max_iter"], tol=cs["tol"])
+        if len(rec["tape"]) != K * cs["n_init"]:
+            c.disagree(what=f"the fit drew {len(rec['tape'])} rand() values, the model expects n_components * n_init = {K * cs['n_init']}", **hint)
+            continue
+        r = parse_fit(ans)
+        # runs whose outcome hangs on quantities the model cannot share with the real run to the last bit
+        sensitive = []
+        if rec["refused"]:
+            sensitive.append("scipy_refused_a_covariance")
+        if rec["min_pos_resp"] < 1e-280:
+            sensitive.append("denormal_responsibilities")
+        amp = rec["amp"]
+        tol = 1e-8 + 1e-12 * amp
+        if not np.isfinite(tol) or tol > 1e-3:
+            sensitive.append("ill_conditioned")
+        margins = []
+        for lbs in rec["lbs"]:
+            for a, b in zip(lbs[:-1], lbs[1:]):
+                margins.append(abs((b - a) - cs["tol"]) / (1 + abs(b)))
+        if margins and min(margins) < 1e-9 + (tol if np.isfinite(tol) else 0.0):
+            sensitive.append("convergence_test_near_tie")
+        if len(rec["lbs"]) > 1:
+            # `lower_bound` when each restart's loop ended: the previous bound if the loop broke, else the last one
+            ends = sorted((l[-2] if len(l) > 1 and (l[-1] - l[-2]) < cs["tol"] else l[-1]) for l in rec["lbs"] if l)
+            if len(ends) > 1 and min(b - a for a, b in zip(ends[:-1], ends[1:])) < 1e-9 + (tol if np.isfinite(tol) else 0.0):
+                sensitive.append("best_restart_near_tie")
+        for t in sensitive:
+            c.count("sensitive:" + t)
+        probs = []
+        if r is None:
+            probs.append(f"model answers {ans[:60]!r}, the real fit returned")
+        else:
+            if r["picks"] != rec["picks"]:
+                probs.append(f"k-means++ indices: real {rec['picks']} model {r['picks']}")
+            if r["nit"] != int(gm.n_iter_) or r["conv"] != bool(gm.converged_):
+                probs.append(f"n_iter_/converged_: real {gm.n_iter_}/{gm.converged_} model {r['nit']}/{r['conv']}")
+            if not probs:
+                xs = float(np.max(np.abs(X)))
+                sp = float(np.max(np.ptp(X, axis=0)))
+                mc = r["cf"] if ct == "full" else r["cd"]
+                t2 = tol if np.isfinite(tol) else 1e-3
+                if not _close(gm.weights_, r["w"], t2):
+                    probs.append(f"weights_: real {gm.weights_.tolist()} model {r['w']}")
+                elif not _close(gm.means_, r["m"], t2 * (1 + xs)):
+                    probs.append(f"means_: real {str(gm.means_.tolist())[:150]} model {str(r['m'])[:150]}")
+                elif not _close(gm.covariances_, mc, t2 * sp * sp + (1e-13 * (1 + xs)) ** 2 + 1e-300):
+                    probs.append(f"covariances_: real {str(np.asarray(gm.covariances_).tolist())[:150]} model {str(mc)[:150]}")
+                elif not _close([gm.lower_bound_], [r["lb"]], t2 * (1 + abs(gm.lower_bound_))):
+                    probs.append(f"lower_bound_: real {gm.lower_bound_!r} model {r['lb']!r}")
+        if probs:
+            if sensitive:
+                c.near_ties += 1
+                c.count("sensitive_runs_that_differ")
+            else:
+                c.disagree(what="; ".join(probs)[:600], **hint)
+        c.sample({"op": line[:140] + "...", "real": {"n_iter": int(gm.n_iter_), "weights": gm.weights_.tolist(), "lb": float(gm.lower_bound_)},
+                  "model": None if r is None else {"n_iter": r["nit"], "weights": r["w"], "lb": r["lb"]}})
+    return [c, cp]
+
+
 # ------------------------------------------------------------------------------------------ (ii) split loop
 class Tagged(np.ndarray):
     """ndarray that remembers the index list of its last fancy-indexing (`X[indices]`)"""
@@ -365,23 +899,44 @@ class Tagged(np.ndarray):
         return out
 
 
-def run_hgmm_recorded(X, w, **kw):
-    """real HierarchicalGaussianMixture.fit with a recording GaussianMixture; returns (hg, log)"""
+def run_hgmm_recorded(X, w, refused=None, **kw):
+    """real HierarchicalGaussianMixture.fit with a recording GaussianMixture; returns (hg, log).
+    `refused` (a list) collects the covariances scipy refused during the fit"""
     from tempest import cluster
     Real = cluster.GaussianMixture
     log = []
 
     class RecGM(Real):
+        def _initialize_parameters(self, Xi, swi):
+            old = self._rng
+            self._rng = _RngSpy(old, self._c15_ev["tape"])
+            self._c15_ev["lbs"].append([])
+            try:
+                return Real._initialize_parameters(self, Xi, swi)
+            finally:
+                self._rng = old
+
+        def _compute_lower_bound(self, *a):
+            v = Real._compute_lower_bound(self, *a)
+            if self._c15_ev["lbs"] and not self._c15_ev.get("in_bic"):
+                self._c15_ev["lbs"][-1].append(float(v))
+            return v
+
         def fit(self, data, sample_weight=None):
             ev = {"k": self.n_components, "idx": getattr(data, "_c15_idx", None), "n": int(len(data)),
                   "w": None if sample_weight is None else np.array(sample_weight, dtype=float), "bic": None,
-                  "labels": None, "predict_called": False}
+                  "labels": None, "predict_called": False, "tape": [], "seed": self.random_state, "n_init": self.n_init,
+                  "lbs": [], "tol": self.tol}
             self._c15_ev = ev
             log.append(ev)
             return Real.fit(self, np.asarray(data), sample_weight)
 
         def bic(self, data):
-            b = Real.bic(self, np.asarray(data))
+            self._c15_ev["in_bic"] = True
+            try:
+                b = Real.bic(self, np.asarray(data))
+            finally:
+                self._c15_ev["in_bic"] = False
             self._c15_ev["bic"] = b
             if self.n_components == 2:
                 # what `child_gmm.predict(data)` returns (deterministic; the real loop calls it only if the score test passes)
@@ -394,7 +949,8 @@ def run_hgmm_recorded(X, w, **kw):
 
     hg = cluster.HierarchicalGaussianMixture(**kw)
     Xt = np.array(X, dtype=float).view(Tagged)
-    with common.patched(cluster, "GaussianMixture", RecGM), warnings.catch_warnings():
+    with common.patched(cluster, "GaussianMixture", RecGM), scipy_refusals([] if refused is None else refused), \
+            warnings.catch_warnings(), np.errstate(all="ignore"):
         warnings.simplefilter("ignore")
         hg.fit(Xt, sample_weight=None if w is None else np.array(w, dtype=float))
     return hg, log
@@ -421,8 +977,10 @@ def examined_from_log(hg, log, d):
 
 def gen_split_case(rs, i):
     d = int(rs.randint(1, 4))
-    shape = ["balanced", "undersized", "overlap", "dups"][i % 4]
+    shape = ["balanced", "undersized", "overlap", "dups", "balanced", "undersized", "overlap", "dups", "line"][i % 9]
     kb = int(rs.randint(2, 5))
+    if shape == "line":
+        d = int(rs.randint(2, 4))
     if shape == "undersized":
         sizes = [int(rs.randint(12, 40)) for _ in range(kb - 1)] + [int(rs.randint(1, 2 * d + 1))]
     else:
@@ -430,6 +988,17 @@ def gen_split_case(rs, i):
     sep = 2.0 if shape == "overlap" else 15.0
     cen = rs.normal(0, sep, (kb, d))
     X = np.vstack([cen[j] + rs.normal(0, 1.0, (sizes[j], d)) for j in range(kb)])
+    if shape == "line":
+        # one blob exactly on a line with a spread of 1e2.5..1e4: its fitted covariance + 1e-6 I is refused by scipy
+        # (lambda_min / lambda_max < 2.2e-10), in the inner fits and in _compute_gaussian_probabilities (identity fall-back)
+        m0 = sizes[0]
+        if rs.rand() < 0.5:
+            X[:m0] = rs.normal(0, 3e4, (1, d)) + rs.normal(0, 1, (m0, 1)) * rs.normal(0, 1, (1, d)) * 10.0 ** rs.uniform(2.5, 4)
+        else:
+            # ALL points on one line (two groups along it): every final cluster has a refused covariance, so predict takes the
+            # identity fall-back of the 'full' branch too
+            t = np.concatenate([rs.normal(-3, 1, (len(X) // 2, 1)), rs.normal(3, 1, (len(X) - len(X) // 2, 1))])
+            X = rs.normal(0, 50, (1, d)) + t * rs.normal(0, 1, (1, d)) * 10.0 ** rs.uniform(2.5, 4)
     if shape == "dups":
         m = len(X)
         src = rs.randint(0, m, m // 3)
@@ -466,30 +1035,171 @@ def split_line(n, minpts, maxit, ex):
     return f"hgmm.F n={n} minpts={minpts} maxit={maxit} script={script}", conflict
 
 
-def _corr_split(tier, drv):
-    n_cases = 300 if tier == "quick" else 12000
+TAPE42 = None
+
+
+def tape42(m):
+    """what `np.random.RandomState(42).rand()` returns, call after call (every inner fit of the hierarchical model is seeded with 42)"""
+    global TAPE42
+    if TAPE42 is None or len(TAPE42) < m:
+        rs = np.random.RandomState(42)
+        TAPE42 = [float(rs.rand()) for _ in range(max(m, 16))]
+    return TAPE42[:m]
+
+
+def hfit_line(X, w, kw, Q, n_init=1, refused=()):
+    n, d = X.shape
+    ww = np.ones(n) if w is None else np.asarray(w, dtype=float)
+    mp = "none" if kw["min_points"] is None else str(kw["min_points"])
+    return (f"hgmm.fit.F d={d} diag={1 if kw['covariance_type'] == 'diag' else 0} norm={1 if kw['normalize'] else 0} x={_mat(X)} "
+            f"w={flist(ww, f2hex)} tape={flist(tape42(2 * n_init), f2hex)} tiny={f2hex(TINY)} eps={f2hex(EPS)} reg={f2hex(1e-6)} "
+            f"tol={f2hex(1e-3)} gmaxit=1000 ninit={n_init} maxit={kw['max_iterations']} minpts={mp} mod={f2hex(kw['threshold_modifier'])} "
+            f"regp={f2hex(1e-6)} epsd={f2hex(1e-8)} q={_mat(Q)} sing={_stack(refused)}")
+
+
+def parse_hfit(ans):
+    t = ans.split(" ")
+    if t[0] != "ok" or len(t) != 12:
+        return None
+    pl = lambda z: [] if z == "-" else [int(x) for x in z.split(",")]
+    return dict(K=int(t[1]), clusters=[] if t[2] == "-" else [[int(x) for x in r.split(",")] for r in t[2].split(";")],
+                labels=pl(t[3]), centers=_p_mat(t[4]), covs=_p_stack(t[5]), weights=_p_list(t[6]), trace=t[7],
+                p1=pl(t[8]), pp1=_p_mat(t[9]), p0=pl(t[10]), pp0=_p_mat(t[11]))
+
+
+def query_points(rs, X):
+    """query points for predict / predict_proba: training points, points around the data, far away (every density
+    underflows / overflows), and non-finite ones"""
+    d = X.shape[1]
+    sgn = np.r_[1.0, -np.ones(d - 1)]
+    return np.vstack([X[: min(5, len(X))], rs.normal(0, 30, (6, d)), X.mean(axis=0) + rs.choice([-1.0, 1.0], (4, d)) * 1e6,
+                      np.full((2, d), 1e150), np.full((1, d), 1e200) * sgn, np.full((1, d), 1e308), np.full((1, d), np.nan),
+                      np.full((1, d), np.inf), np.r_[np.nan, np.zeros(d - 1)][None, :], np.r_[-np.inf, np.zeros(d - 1)][None, :]])
+
+
+def real_predictions(hg, Q, refused=None, as_list=False):
+    """predict / predict_proba of a fitted real model on both paths (mixture posterior; nearest centre with `_gmm_ready` off);
+    `as_list`: hand the query points over as nested lists (the `np.array(X)` conversion branch)"""
+    out = {}
+    with scipy_refusals([] if refused is None else refused), warnings.catch_warnings(), np.errstate(all="ignore"):
+        warnings.simplefilter("ignore")
+        out["p1"] = np.asarray(hg.predict(Q.tolist() if as_list else Q))
+        out["pp1"] = np.asarray(hg.predict_proba(Q.tolist() if as_list else Q))
+        ready = hg._gmm_ready
+        hg._gmm_ready = False
+        try:
+            out["p0"] = np.asarray(hg.predict(Q))
+            out["pp0"] = np.asarray(hg.predict_proba(Q))
+        finally:
+            hg._gmm_ready = ready
+    return out
+
+
+def check_hgmm_invariants(hg, X, w, kw, exd, preds, nq):
+    """the property's own oracle on a fitted real hierarchical model and its predictions"""
+    n, d = X.shape
+    K = int(hg.n_clusters_)
+    lab = np.asarray(hg.labels_)
+    if lab.shape != (n,) or lab.dtype.kind not in "iu":
+        return f"labels_ has shape {lab.shape} dtype {lab.dtype}"
+    if K < 1 or np.any(lab < 0) or np.any(lab >= K):
+        return f"training label outside [0,{K}): min {int(lab.min())} max {int(lab.max())}"
+    if K > kw["max_iterations"] + 1:
+        return f"n_clusters_ = {K} exceeds max_iterations + 1 = {kw['max_iterations'] + 1}"
+    if len(hg.cluster_centers_) != K or len(hg.cluster_covariances_) != K or len(hg.cluster_weights_) != K:
+        return f"n_clusters_ = {K} but {len(hg.cluster_centers_)} centres / {len(hg.cluster_covariances_)} covariances / {len(hg.cluster_weights_)} weights"
+    minpts = kw["min_points"] if kw["min_points"] is not None else 2 * d
+    sizes = np.bincount(lab, minlength=K)
+    if K > 1 and int(sizes.min()) < minpts:
+        return f"an accepted split left a cluster of {int(sizes.min())} < min_points = {minpts} members (sizes {sizes.tolist()})"
+    cw = np.asarray(hg.cluster_weights_, dtype=float)
+    if np.any(~np.isfinite(cw)) or np.any(cw < 0) or abs(float(cw.sum()) - 1.0) > 1e-9:
+        return f"cluster_weights_ = {cw.tolist()} is not a probability vector"
+    for name in ("p1", "p0"):
+        p = preds[name]
+        if p.shape != (nq,) or p.dtype.kind not in "iu" or np.any(p < 0) or np.any(p >= K):
+            return f"predict ({'mixture' if name == 'p1' else 'nearest-centre'} path) returned labels outside [0,{K}): {p.tolist()[:12]}"
+    for name in ("pp1", "pp0"):
+        P = preds[name]
+        if P.shape != (nq, K):
+            return f"predict_proba returned shape {P.shape}, expected {(nq, K)}"
+        fin = np.all(np.isfinite(P), axis=1)
+        if np.any(P[fin] < 0) or np.any(P[fin] > 1 + 1e-12):
+            return f"predict_proba returned an entry outside [0,1]"
+    return None
+
+
+def _split_near_tie(exd, tol=1e-9):
+    """does some decision of the real split loop hang on a margin below the tolerance (score against threshold, or
+    against the best score so far)?"""
+    imps = [e["improvement"] for e in exd]
+    for e in exd:
+        sc = 1.0 + abs(e["improvement"]) + abs(e["threshold"])
+        if not np.isfinite(e["improvement"]) or abs(e["improvement"] - e["threshold"]) <= tol * sc:
+            return True
+    srt = sorted(v for v in imps if np.isfinite(v))
+    return any(b - a <= tol * (1 + abs(b)) for a, b in zip(srt[:-1], srt[1:]) if b != a)
+
+
+def _restart_near_tie(log, tol=1e-9):
+    """some inner fit with several restarts ended two of them on lower bounds closer than the tolerance: which one is kept
+    (and hence the ORDER of the two child components) hangs on the last bits"""
+    for e in log:
+        if len(e.get("lbs", [])) > 1:
+            ends = sorted((l[-2] if len(l) > 1 and (l[-1] - l[-2]) < e["tol"] else l[-1]) for l in e["lbs"] if l)
+            if any(b - a <= tol * (1 + abs(b)) for a, b in zip(ends[:-1], ends[1:])):
+                return True
+    return False
+
+
+def _corr_hier(tier, drv, cp):
+    n_cases = 300 if tier == "quick" else 4000
     rng = common.rng_for("C15.split")
     c = Corr("split-X", "exact replay (recorded float scores compared with the same IEEE `>`; index lists exact)")
+    ch = Corr("hfit-T", "decisions exact, values toleranced (whole real HierarchicalGaussianMixture.fit + predict + predict_proba vs the "
+                        "model's hfit with the mixture fits inside: examined clusters, labels_, n_clusters_, predicted labels on both paths "
+                        "exact; centres/covariances/weights/probabilities at 1e-7)")
     lines, cases = [], []
     for i in range(n_cases):
         rs = _np_rng(rng)
         X, w, kw, meta = gen_split_case(rs, i)
         n, d = X.shape
+        n_init = 1 if rs.rand() < 0.8 else 2
+        kw = dict(kw, n_init=n_init)
+        Q = query_points(rs, X)
+        refused = []
         try:
-            hg, log = run_hgmm_recorded(X, w, **kw)
-        except Exception as ex:  # the real fit refused this data set: not a statement about the loop
-            c.count("real_raised:" + type(ex).__name__)
+            hg, log = run_hgmm_recorded(X, w, refused=refused, **kw)
+            preds = real_predictions(hg, Q, refused=refused, as_list=(i % 5 == 0))
+        except Exception as ex:  # noqa -- the hierarchical fit / predict must not raise on the statement's data
+            cp.case(("raise", meta["shape"], str(kw), _sha(X)), True)
+            cp.disagree(what=f"HierarchicalGaussianMixture fit/predict raised {type(ex).__name__}: {str(ex)[:120]}",
+                        suite_kind="split", X=X, w=w, kw=kw)
             continue
         exd, final = examined_from_log(hg, log, d)
+        # --- property oracle on the real model
+        cp.case(("hgmm", meta["shape"], meta["wf"], str(kw), _sha(X)), True)
+        cp.count("hgmm")
+        msg = check_hgmm_invariants(hg, X, w, kw, exd, preds, len(Q))
+        if msg:
+            cp.disagree(what=msg, suite_kind="split", X=X, w=w, kw=kw)
         if any(e["idx"] is None for e in exd) or any(e["idx"] is None for e in final):
             c.count("index_tag_lost")      # the implementation no longer slices with `X[indices]`: nothing to replay
             continue
         minpts = kw["min_points"] if kw["min_points"] is not None else 2 * d
         line, conflict = split_line(n, minpts, kw["max_iterations"], exd)
         lines.append(line)
-        cases.append(dict(X=X, w=w, kw=kw, meta=meta, hg=hg, ex=exd, final=final, conflict=conflict, minpts=minpts))
+        uniq = []
+        for M in refused:               # distinct refused matrices (the same one is refused again and again)
+            if not any(M.shape == U.shape and np.array_equal(M, U, equal_nan=True) for U in uniq):
+                uniq.append(M)
+        lines.append(hfit_line(X, w, kw, Q, n_init, uniq[:12]))
+        cases.append(dict(X=X, w=w, kw=kw, meta=meta, hg=hg, ex=exd, final=final, conflict=conflict, minpts=minpts, Q=Q,
+                          preds=preds, log=log, n_init=n_init, n_refused=len(uniq)))
     res = drv.batch(lines)
-    for cs, line, ans in zip(cases, lines, res):
+    for j, cs in enumerate(cases):
+        line, ans = lines[2 * j], res[2 * j]
+        hline, hans = lines[2 * j + 1], res[2 * j + 1]
         hg, exd, kw, X = cs["hg"], cs["ex"], cs["kw"], cs["X"]
         n, d = X.shape
         c.case((cs["meta"]["shape"], cs["meta"]["wf"], str(kw), _sha(X)), len(exd) >= 1)
@@ -499,46 +1209,153 @@ def _corr_split(tier, drv):
         c.count(f"K={hg.n_clusters_}")
         c.count("examined", len(exd))
         hint = dict(suite_kind="split", X=X, w=cs["w"], kw=kw)
+        real_labels = [int(t) for t in hg.labels_]
         if cs["conflict"] is not None:
             c.disagree(what="the same member list was scored differently in two passes", members=list(cs["conflict"]), **hint)
+        else:
+            toks = ans.split(" ")
+            if len(toks) != 4:
+                c.disagree(what="model could not replay the log", model=ans[:200], input=line[:200],
+                           real_examined=[e["idx"] for e in exd][:6], **hint)
+            else:
+                mK = int(toks[0])
+                mclusters = [] if toks[1] == "-" else [[int(t) for t in r.split(",")] for r in toks[1].split(";")]
+                mlabels = [] if toks[2] == "-" else [int(t) for t in toks[2].split(",")]
+                mtrace = [] if toks[3] == "-" else [[int(t) for t in r.split(":")[2].split(".")] for r in toks[3].split(";")]
+                real_final = [e["idx"] for e in cs["final"]]
+                model_final = [cl for cl in mclusters if len(cl) >= d]
+                problems = []
+                if mtrace != [e["idx"] for e in exd]:
+                    problems.append("sequence of examined clusters")
+                if mK != int(hg.n_clusters_):
+                    problems.append(f"n_clusters_ real {hg.n_clusters_} model {mK}")
+                if mlabels != real_labels:
+                    problems.append("labels_")
+                if model_final != real_final:
+                    problems.append("final cluster order")
+                if any(not e["same_idx"] for e in exd):
+                    problems.append("parent and child mixtures were fitted on different members")
+                # the real loop calls predict exactly when the score test passes and beats the best so far: replayed inside the
+                # model; here only the weaker, local consequence
+                for e in exd:
+                    if e["predict_called"] and not (e["improvement"] > e["threshold"]):
+                        problems.append("predict called although the score did not pass the threshold")
+                if problems:
+                    c.disagree(what="; ".join(problems), impl=dict(K=int(hg.n_clusters_), labels=real_labels[:40]),
+                               model=dict(K=mK, labels=mlabels[:40]), **hint)
+                if any(e["predict_called"] for e in exd):
+                    c.count("cases_with_score_pass")
+                if any(e["predict_called"] and min(e["labels"].count(0), e["labels"].count(1)) < cs["minpts"] for e in exd):
+                    c.count("cases_with_split_refused_for_size")
+                c.sample({"params": kw, "n": n, "d": d, "examined": len(exd), "K": int(hg.n_clusters_), "model": ans[:160]})
+        # ---------------- the whole fit with the numerics inside the model
+        ch.case((cs["meta"]["shape"], cs["meta"]["wf"], str(kw), _sha(X)), len(exd) >= 1)
+        ch.count("cov:" + kw["covariance_type"] + (":normalize" if kw["normalize"] else ""))
+        ch.count(f"K={hg.n_clusters_}")
+        ch.count(f"n_init={cs['n_init']}")
+        ch.count("shape:" + cs["meta"]["shape"])
+        if cs["n_refused"]:
+            ch.count("cases_where_scipy_refused_a_covariance")
+        bad_tape = [e for e in cs["log"] if e["tape"] != tape42(len(e["tape"])) or len(e["tape"]) != e["k"] * cs["n_init"] or e["seed"] != 42]
+        if bad_tape:
+            ch.disagree(what=f"an inner mixture fit (n_components={bad_tape[0]['k']}) did not draw RandomState(42)'s values: "
+                             f"{bad_tape[0]['tape'][:3]} (random_state={bad_tape[0]['seed']})", **hint)
             continue
-        toks = ans.split(" ")
-        if len(toks) != 4:
-            c.disagree(what="model could not replay the log", model=ans[:200], input=line[:200],
-                       real_examined=[e["idx"] for e in exd][:6], **hint)
-            continue
-        mK = int(toks[0])
-        mclusters = [] if toks[1] == "-" else [[int(t) for t in r.split(",")] for r in toks[1].split(";")]
-        mlabels = [] if toks[2] == "-" else [int(t) for t in toks[2].split(",")]
-        mtrace = [] if toks[3] == "-" else [[int(t) for t in r.split(":")[2].split(".")] for r in toks[3].split(";")]
-        real_labels = [int(t) for t in hg.labels_]
-        real_final = [e["idx"] for e in cs["final"]]
-        model_final = [cl for cl in mclusters if len(cl) >= d]
-        problems = []
-        if mtrace != [e["idx"] for e in exd]:
-            problems.append("sequence of examined clusters")
-        if mK != int(hg.n_clusters_):
-            problems.append(f"n_clusters_ real {hg.n_clusters_} model {mK}")
-        if mlabels != real_labels:
-            problems.append("labels_")
-        if model_final != real_final:
-            problems.append("final cluster order")
-        if any(not e["same_idx"] for e in exd):
-            problems.append("parent and child mixtures were fitted on different members")
-        # the real loop calls predict exactly when the score test passes and beats the best so far: replayed inside the model;
-        # here only the weaker, local consequence
-        for e in exd:
-            if e["predict_called"] and not (e["improvement"] > e["threshold"]):
-                problems.append("predict called although the score did not pass the threshold")
-        if problems:
-            c.disagree(what="; ".join(problems), impl=dict(K=int(hg.n_clusters_), labels=real_labels[:40]),
-                       model=dict(K=mK, labels=mlabels[:40]), **hint)
-        if any(e["predict_called"] for e in exd):
-            c.count("cases_with_score_pass")
-        if any(e["predict_called"] and min(e["labels"].count(0), e["labels"].count(1)) < cs["minpts"] for e in exd):
-            c.count("cases_with_split_refused_for_size")
-        c.sample({"params": kw, "n": n, "d": d, "examined": len(exd), "K": int(hg.n_clusters_), "model": ans[:160]})
-    return [c]
+        r = parse_hfit(hans)
+        probs, soft = [], []
+        preds, Q = cs["preds"], cs["Q"]
+        if r is None:
+            probs.append(f"model answers {hans[:60]!r}, the real fit returned")
+        else:
+            if [t.split(":")[2] for t in ([] if r["trace"] == "-" else r["trace"].split(";"))] != [".".join(map(str, e["idx"])) for e in exd]:
+                probs.append("sequence of examined clusters")
+            if r["K"] != int(hg.n_clusters_):
+                probs.append(f"n_clusters_ real {hg.n_clusters_} model {r['K']}")
+            if r["labels"] != real_labels:
+                probs.append("labels_")
+            if not probs:
+                sc = 1.0 + float(np.max(np.abs(X)))
+                for a, b in zip(r["centers"], hg.cluster_centers_):
+                    if not _close(b, a, 1e-7 * sc):
+                        probs.append(f"cluster_centers_: real {np.asarray(b).tolist()} model {a}")
+                        break
+                for a, b in zip(r["covs"], hg.cluster_covariances_):
+                    if np.shape(a) != np.shape(b) or not _close(b, a, 1e-7 * sc * sc):
+                        probs.append(f"cluster_covariances_: real {str(np.asarray(b).tolist())[:120]} model {str(a)[:120]}")
+                        break
+                if not _close(hg.cluster_weights_, r["weights"], 1e-9):
+                    probs.append(f"cluster_weights_: real {np.asarray(hg.cluster_weights_).tolist()} model {r['weights']}")
+                for name, what in (("pp1", "predict_proba"), ("pp0", "predict_proba (distance path)")):
+                    if not _close(preds[name], r[name], 1e-7):
+                        A, B = np.asarray(preds[name], dtype=float), np.asarray(r[name], dtype=float)
+                        rows = list(range(len(A))) if A.shape != B.shape else \
+                            [q for q in range(len(A)) if not _close(A[q], B[q], 1e-7)]
+                        if A.shape == B.shape and _pred_unstable(hg, Q, rows, name):
+                            ch.near_ties += 1
+                            ch.count("numerically_undetermined_query_rows", len(rows))
+                        else:
+                            soft.append(what)
+                for name, pname, what in (("p1", "pp1", "predict"), ("p0", None, "predict (nearest-centre path)")):
+                    real_p = [int(t) for t in preds[name]]
+                    if real_p != r[name]:
+                        rows = [q for q in range(len(real_p)) if real_p[q] != r[name][q]]
+                        # a label may differ only where the two best posteriors / distances tie to the tolerance, or where the
+                        # real code's own answer changes under a 1e-13 perturbation of the fitted parameters
+                        if pname is not None and all(_row_tie(preds[pname][q]) for q in rows):
+                            ch.near_ties += 1
+                        elif _pred_unstable(hg, Q, rows, name):
+                            ch.near_ties += 1
+                            ch.count("numerically_undetermined_query_rows", len(rows))
+                        else:
+                            probs.append(f"{what}: rows {rows[:5]} real {[real_p[q] for q in rows[:5]]} model {[r[name][q] for q in rows[:5]]}")
+                probs += soft
+        if probs:
+            if (r is not None) and _split_near_tie(exd) and not soft:
+                ch.near_ties += 1
+                ch.count("split_decision_near_tie")
+            elif (r is not None) and _restart_near_tie(cs["log"]):
+                ch.near_ties += 1
+                ch.count("inner_restart_near_tie")
+            elif cs["n_refused"] > 12:
+                ch.near_ties += 1           # more distinct refusals than were handed to the model's oracle
+                ch.count("refusals_not_all_replayed")
+            else:
+                ch.disagree(what="; ".join(probs)[:600], **hint)
+        far = np.asarray(preds["pp1"])[11:]
+        ch.count("query_rows", len(Q))
+        ch.count("query_rows_with_nan_probabilities", int(np.sum(np.any(np.isnan(np.asarray(preds["pp1"])), axis=1))))
+        ch.sample({"params": kw, "n": n, "d": d, "K": int(hg.n_clusters_), "model": hans[:120]})
+    return [c, ch]
+
+
+def _pred_unstable(hg, Q, rows, name):
+    """are the real model's own answers at these query rows numerically undetermined?  The fitted centres and covariances are
+    perturbed by 1e-13 relative (twelve times); if `predict` / `predict_proba` of the REAL code changes at one of the rows, the
+    row hangs on the last bits of the parameters (ill-conditioned covariance, far-away query) and cannot be compared"""
+    import copy
+    base = real_predictions(hg, Q)
+    rs = np.random.RandomState(len(Q) * 7919 + len(rows))
+    for _ in range(12):
+        h2 = copy.copy(hg)
+        h2.cluster_covariances_ = [np.asarray(c) * (1.0 + 1e-13 * rs.standard_normal(np.shape(c))) for c in hg.cluster_covariances_]
+        h2.cluster_centers_ = [np.asarray(c) * (1.0 + 1e-13 * rs.standard_normal(np.shape(c))) for c in hg.cluster_centers_]
+        alt = real_predictions(h2, Q)
+        for q in rows:
+            a, b = np.asarray(base[name][q]), np.asarray(alt[name][q])
+            if a.ndim == 0:
+                if int(a) != int(b):
+                    return True
+            elif not _close(a, b, 1e-7):
+                return True
+    return False
+
+
+def _row_tie(prow, tol=1e-7):
+    prow = np.asarray(prow, dtype=float)
+    if np.any(np.isnan(prow)):
+        return False
+    srt = np.sort(prow)
+    return len(srt) >= 2 and (srt[-1] - srt[-2]) <= tol
 
 
 # ------------------------------------------------------------------------------------------ (iii) replication
@@ -606,7 +1423,7 @@ def gen_rep_case(rs, i):
 
 
 def _corr_replicate(tier):
-    n_cases = 120 if tier == "quick" else 4000
+    n_cases = 120 if tier == "quick" else 2000
     rng = common.rng_for("C15.replicate")
     c = Corr("replicate-T", "real vs real (theorem C15_em_factors_through_wsum predicts equality; tolerance 1e-6 relative)")
     for i in range(n_cases):
@@ -631,83 +1448,39 @@ def correspond(tier):
     out = []
     out += _corr_algebra(tier, drv)
     out += _corr_init(tier, drv)
-    out += _corr_split(tier, drv)
+    fit_suites = _corr_fit(tier, drv)          # [gmmfit-T, property-R]
+    out += [fit_suites[0]]
+    out += _corr_hier(tier, drv, fit_suites[1])
     out += _corr_replicate(tier)
+    out += [fit_suites[1]]
     return out
 
 
 # ------------------------------------------------------------------------------------------ property oracle on the real code
-def oracle_gmm(X, w, k, ct, seed):
-    """simplex / symmetric PSD / mean-in-bbox on a real fit; returns a description of the violation or None"""
+def oracle_gmm(X, w, k, ct, seed, n_init=1, max_iter=1000, tol=1e-3):
+    """simplex / symmetric PSD / mean-in-bbox / iteration bounds on a real fit; returns a description of the violation or None"""
     from tempest.cluster import GaussianMixture
     X = np.asarray(X, dtype=float)
-    gm = GaussianMixture(n_components=k, covariance_type=ct, random_state=seed)
-    with warnings.catch_warnings():
+    gm = GaussianMixture(n_components=k, covariance_type=ct, random_state=seed, n_init=n_init, max_iter=max_iter, tol=tol)
+    with warnings.catch_warnings(), np.errstate(all="ignore"):
         warnings.simplefilter("ignore")
         gm.fit(X, None if w is None else np.asarray(w, dtype=float))
-    pi = np.asarray(gm.weights_, dtype=float)
-    if pi.shape != (k,) or not np.all(np.isfinite(pi)):
-        return f"weights_ not finite / wrong shape: {pi.tolist()}"
-    if np.any(pi < 0):
-        return f"negative component weight: {pi.tolist()}"
-    if abs(float(np.sum(pi)) - 1.0) > 1e-12:
-        return f"component weights sum to {float(np.sum(pi))!r} (|sum-1| = {abs(float(np.sum(pi)) - 1.0):.3e} > 1e-12)"
-    lo, hi = X.min(axis=0), X.max(axis=0)
-    sp = float(np.max(hi - lo))
-    for j in range(k):
-        C = np.asarray(gm.covariances_[j], dtype=float)
-        if not np.all(np.isfinite(C)):
-            return f"covariance of component {j} not finite"
-        scale = max(float(np.max(np.abs(C))), 1e-300)
-        if ct == "full":
-            if float(np.max(np.abs(C - C.T))) > 1e-12 * scale:
-                return f"covariance of component {j} not symmetric: max |C - C^T| = {float(np.max(np.abs(C - C.T))):.3e}"
-            ev = float(np.min(np.linalg.eigvalsh((C + C.T) / 2)))
-            if ev < -1e-12 * scale:
-                return f"covariance of component {j} has eigenvalue {ev!r} < 0 (scale {scale:.3e})"
-        else:
-            if np.any(C < 0):
-                return f"diagonal covariance of component {j} has a negative entry {float(C.min())!r}"
-        if pi[j] >= 1e-3:
-            m = np.asarray(gm.means_[j], dtype=float)
-            slack = 1e-9 * (1.0 + np.maximum(np.abs(lo), np.abs(hi)))
-            if np.any(m < lo - slack) or np.any(m > hi + slack):
-                return (f"mean of component {j} (weight {pi[j]:.4f}) outside the bounding box: mean={m.tolist()} "
-                        f"lo={lo.tolist()} hi={hi.tolist()}")
-    return None
+    return check_gmm_invariants(gm, X, k, ct)
 
 
 def oracle_hgmm(X, w, kw, queries):
-    """labels total, cap, minimum size (through the recorder), predict range on a real hierarchical fit"""
+    """labels total, cap, minimum size, cluster weights, predict / predict_proba range on both paths, on a real hierarchical fit"""
     X = np.asarray(X, dtype=float)
     n, d = X.shape
     hg, log = run_hgmm_recorded(X, w, **kw)
-    K = int(hg.n_clusters_)
-    lab = np.asarray(hg.labels_)
-    if lab.shape != (n,) or lab.dtype.kind not in "iu":
-        return f"labels_ has shape {lab.shape} dtype {lab.dtype}"
-    if K < 1 or np.any(lab < 0) or np.any(lab >= K):
-        return f"training label outside [0,{K}): min {int(lab.min())} max {int(lab.max())}"
-    if K > kw["max_iterations"] + 1:
-        return f"n_clusters_ = {K} exceeds max_iterations + 1 = {kw['max_iterations'] + 1}"
-    minpts = kw["min_points"] if kw["min_points"] is not None else 2 * d
     exd, _ = examined_from_log(hg, log, d)
-    sizes = np.bincount(lab, minlength=K)
-    if K > 1 and int(sizes.min()) < minpts:
-        return f"an accepted split left a cluster of {int(sizes.min())} < min_points = {minpts} members (sizes {sizes.tolist()})"
-    with warnings.catch_warnings():
-        warnings.simplefilter("ignore")
-        for Q in queries:
-            p = np.asarray(hg.predict(np.asarray(Q, dtype=float)))
-            if p.shape != (len(Q),) or p.dtype.kind not in "iu" or np.any(p < 0) or np.any(p >= K):
-                return f"predict returned labels outside [0,{K}) for query points: {p.tolist()[:10]}"
-    return None
+    Q = np.vstack([np.asarray(q, dtype=float) for q in queries])
+    preds = real_predictions(hg, Q)
+    return check_hgmm_invariants(hg, X, w, kw, exd, preds, len(Q))
 
 
 def _queries(rs, X):
-    d = X.shape[1]
-    return [X[: min(5, len(X))].tolist(), rs.normal(0, 30, (6, d)).tolist(),
-            (X.mean(axis=0) + rs.choice([-1.0, 1.0], (4, d)) * 1e6).tolist(), np.full((2, d), 1e150).tolist()]
+    return [query_points(rs, X).tolist()]
 
 
 def oracle_replicate(X, cnt, k, ct, seed):
@@ -722,7 +1495,7 @@ def _run_oracle(f):
     kind = f["kind"]
     try:
         if kind == "gmm":
-            return oracle_gmm(f["X"], f["w"], f["k"], f["ct"], f["seed"])
+            return oracle_gmm(f["X"], f["w"], f["k"], f["ct"], f["seed"], f.get("n_init", 1), f.get("max_iter", 1000), f.get("tol", 1e-3))
         if kind == "hgmm":
             return oracle_hgmm(f["X"], f["w"], f["kw"], f["queries"])
         if kind == "replicate":
@@ -749,7 +1522,10 @@ def search(tier, hints):
             cands.append(dict(kind="hgmm", X=_tolist(X), w=_tolist(h.get("w")), kw=h["kw"], queries=_queries(rs, X)))
         elif sk == "replicate":
             cands.append(dict(kind="replicate", X=_tolist(h["X"]), cnt=_tolist(h["cnt"]), k=h["k"], ct=h["ct"], seed=h["seed"]))
-        elif sk in ("mstep", "estep"):
+        elif sk == "gmm":
+            cands.append(dict(kind="gmm", X=_tolist(h["X"]), w=_tolist(h.get("w")), k=int(h["K"]), ct=h["ct"], seed=int(h["seed"]),
+                              n_init=int(h["n_init"]), max_iter=int(h["max_iter"]), tol=float(h["tol"])))
+        elif sk in ("mstep", "estep", "gmmeval"):
             X = np.asarray(h["X"], dtype=float)
             if len(X) <= 60:
                 s = h.get("s")
@@ -765,8 +1541,11 @@ def search(tier, hints):
         n = int(rs.randint(2 * d, 60))
         X = gen_points(rs, d, n, POINT_FAMILIES[i % 5])
         w = gen_weights(rs, n, WEIGHT_FAMILIES[(i // 5) % 5])
+        if i % 4 == 3:
+            X = X * 10.0 ** rs.uniform(1, 5)
         cands.append(dict(kind="gmm", X=X.tolist(), w=None if rs.rand() < 0.2 else w.tolist(), k=int(rs.randint(1, 4)),
-                          ct="full" if i % 2 == 0 else "diag", seed=int(rs.randint(0, 100))))
+                          ct="full" if i % 2 == 0 else "diag", seed=int(rs.randint(0, 100)),
+                          n_init=int(rs.randint(1, 3)), max_iter=[1000, 1000, 3, 1][int(rs.randint(0, 4))], tol=1e-3))
     n_h = 40 if tier == "quick" else 600
     for i in range(n_h):
         rs = _np_rng(rng)
